@@ -1,7 +1,10 @@
 use crate::util::Address;
 use std::collections::HashMap;
 use std::io::{Error, ErrorKind, Result};
+#[cfg(not(mmtk_verif))]
 use std::sync::{Mutex, RwLock};
+#[cfg(mmtk_verif)]
+use crate::util::verif::sync::{Mutex, RwLock};
 
 use super::layout::{
     LOG_GLOBAL_SIDE_METADATA_WORST_CASE_RATIO, LOG_LOCAL_SIDE_METADATA_WORST_CASE_RATIO,
